@@ -1,7 +1,7 @@
 #![allow(non_camel_case_types, non_snake_case, dead_code)]
 #[tarpc::service]
 pub trait Rej27 {
-    async fn Ab(a0: i32);
+    async fn Ab() -> String;
     async fn aB(a0: i32) -> i32;
 }
 fn main() {}
